@@ -314,6 +314,8 @@ def inlined(prog, fn, only=None, _depth=0):
                 if isinstance(x, dict):
                     if x.get("k") == "const" and "promoted" in x and isinstance(x["promoted"], int):
                         x["promoted"] += poff
+                        if x.get("name") == g.path:
+                            x["name"] = fn.path
                     for v in x.values():
                         fixp(v)
                 elif isinstance(x, list):
@@ -1204,6 +1206,13 @@ class Explore:
                     d_ = [x for x in fn.defs().get(a_["p"]["l"], []) if x[2]["k"] != "partial"]
                     if len(d_) == 1 and d_[0][2]["k"] == "ref" and not d_[0][2]["p"]["proj"] and not d_[0][2].get("mut"):
                         asked.add(d_[0][2]["p"]["l"])
+        # (and the operand of `?`: the variant of `x` decides which way `x?` goes)
+        for b in fn.blocks:
+            t_ = b["term"]
+            if t_["k"] == "call" and "indirect" not in t_["f"] and callee_str(t_["f"]).endswith("as std::ops::Try>::branch") and len(t_["args"]) == 1:
+                a_ = t_["args"][0]
+                if a_["k"] in ("copy", "move") and not a_["p"]["proj"]:
+                    asked.add(a_["p"]["l"])
         enum_auto = []
         def movable(l_, seen=()):
             d_ = fn.defs().get(l_, [])
@@ -1218,7 +1227,7 @@ class Explore:
                     src = r_["op"]["p"]["l"]
                     if src not in tracked and src not in auto and src not in enum_auto and movable(src):
                         enum_auto.append(src)
-        if len(enum_auto) > 16:
+        if len(enum_auto) > 64:
             enum_auto = []
         # and tuple-valued locals built from aggregates / moved whole (`let (ms, clipped) = if .. { (a, false) } else { (MAX, true) }`): their
         # components are followed, so that a flag read out of the pair is as well known as a flag assigned directly
@@ -1429,6 +1438,19 @@ class Explore:
             try:
                 ct = ("call", callee_str(t["f"]), tuple(self.terms.operand(a) for a in t["args"]), bb)
                 v = self._eval_term(ct)
+                if v is None and callee_str(t["f"]).endswith("as std::ops::Try>::branch") and len(t["args"]) == 1:
+                    # x? of a followed x: Ok / Some continue, Err / None break
+                    a0 = t["args"][0]
+                    if a0["k"] in ("copy", "move") and not a0["p"]["proj"] and a0["p"]["l"] in st and st[a0["p"]["l"]] is not None:
+                        sv = st[a0["p"]["l"]]
+                        sv = sv.vidx if isinstance(sv, EV) else sv
+                        if "std::result::Result" in callee_str(t["f"]):
+                            v = sv
+                        elif "std::option::Option" in callee_str(t["f"]):
+                            v = 1 - sv if sv in (0, 1) else None
+                if v is None and "FromResidual" in callee_str(t["f"]) and callee_str(t["f"]).endswith("::from_residual"):
+                    # the residual of `?` converted back: an Err (a None)
+                    v = 1 if "std::result::Result" in callee_str(t["f"]) else (0 if "std::option::Option" in callee_str(t["f"]) else None)
                 if v is None and callee_str(t["f"]) in self._OPT_TESTS and len(t["args"]) == 1:
                     # x.is_none() / is_some() / is_ok() / is_err() of a followed local (through the `&x` temporary)
                     src = self._ref_target(t["args"][0])
